@@ -308,7 +308,8 @@ C05(job) ==
       rf == RunProg(job.flat, "", job.provided, WorldOf(job), job.mode)
       vn == FilterOut(job.prog, rn.vals, job.select)
       vf == FilterOut(job.flat, rf.vals, job.select)
-      leaves == {c.node : c \in {rf.calls[k] : k \in 1..Len(rf.calls)}}
+      \* the functions inside nested graphs of the nesting
+      leaves == {c.node : c \in {rn.calls[k] : k \in {k \in 1..Len(rn.calls) : rn.calls[k].frame # "" /\ rn.calls[k].kind # "graph"}}}
   IN [ status |-> rn.status = rf.status,
        values |-> (rn.status = "completed") => (DOMAIN vn \subseteq DOMAIN vf /\ \A k \in DOMAIN vn : vn[k] = vf[k]),
        exposed |-> (rn.status = "completed") => \A k \in DOMAIN vf : (k \in Names(job.hidden) \/ k \in DOMAIN vn),
